@@ -870,10 +870,19 @@ def _check_timeout(run, repo, world):
         for (nm_, (k_, f_)) in pc.methods.items():
             pass
         for n in ast.walk(pc.node):
-            if isinstance(n, ast.If) and any(
-                    unparse(x) == "self.rx_idle.set()" for b in n.body
-                    for x in ast.walk(b)) and isinstance(
-                        n.test, ast.Compare):
+            if not (isinstance(n, ast.If) and isinstance(
+                    n.test, ast.Compare) and len(n.test.ops) == 1):
+                continue
+            in_body = any(unparse(x) == "self.rx_idle.set()"
+                          for b in n.body for x in ast.walk(b))
+            in_else = any(unparse(x) == "self.rx_idle.set()"
+                          for b in n.orelse for x in ast.walk(b))
+            eq = isinstance(n.test.ops[0], (ast.Eq, ast.Is))
+            ne = isinstance(n.test.ops[0], (ast.NotEq, ast.IsNot))
+            # the event is set in the arm where the state IS the idle one,
+            # whichever way round the test is written
+            if (in_body and eq and not in_else) or (
+                    in_else and ne and not in_body):
                 start = unparse(n.test.comparators[0])
         clears = []
         for (nm_, (k_, f_)) in pc.methods.items():
